@@ -91,6 +91,19 @@ def drive(rng, length=14):
   h['dflt'] = [[p, D(p)] for p in h['pos']] + [[k, D(k)] for k in h['kwo']]
   h['npd'], h['kwd'] = len(h['pos']), list(h['kwo'])
   reg = [consumer, g, h, GIN_MACRO, GIN_CONSTANT, GIN_SINGLETON]
+  twin = None
+  if consumer['kind'] == 'fn' and not consumer['deco'] and rng.random() < 0.4:
+    # the consumer's function registered a second time, under another name and with other allow / deny lists
+    names = consumer['pos'] + consumer['kwo']
+    free = [n for n in names if [n, ['req']] not in consumer['dflt']]
+    allow, deny = ['*'], []
+    r = rng.random()
+    if free and r < 0.4:
+      deny = [rng.choice(free)]
+    elif names and r < 0.7:
+      allow = sorted(set(rng.sample(names, rng.randint(1, len(names))) + [n for n in names if n not in free]))
+    twin = dict(consumer, sel=['m', 'f2'], allow=allow, deny=deny, api=rng.choice(['external', 'register']), twin_of='m.f')
+    reg.insert(1, twin)
   world = A.World(reg, pool_seed=rng.randrange(1 << 30))
   events = []
   depth = 0
@@ -102,10 +115,10 @@ def drive(rng, length=14):
     for _ in range(length):
       r = rng.random()
       if r < 0.3:
-        c = rng.choice([consumer, consumer, g, h])
+        c = rng.choice([consumer, consumer, g, h] + ([twin, twin] if twin else []))
         names = (['self'] if c['kind'] == 'cls' else []) + c['pos'] + c['kwo'] + ['z']
         sc = rng.choice([[], [], ['a'], ['ab'], ['a', 'b'], ['a', 'b', 'ab'], ['b', 'a'], ['W']])
-        producers = [['m', 'g'], ['n', 'h']] if c is consumer else ([['n', 'h']] if c is g else [])
+        producers = [['m', 'g'], ['n', 'h']] if c in (consumer, twin) else ([['n', 'h']] if c is g else [])
         v = random_value(rng, producers)
         if c is consumer and rng.random() < 0.08:
           v = ['ref', ['gin', 'singleton'], ['s1'], 'call']
@@ -127,7 +140,7 @@ def drive(rng, length=14):
       elif r < 0.60 and depth > 0:
         o = dict(op='ExitScope', byException=rng.random() < 0.3)
       elif r < 0.84:
-        c = rng.choice([consumer, consumer, consumer, g])
+        c = rng.choice([consumer, consumer, consumer, g] + ([twin, twin] if twin else []))
         npos = rng.randint(0, len(c['pos']) + (1 if rng.random() < 0.15 else 0))
         pargs = [['req'] if rng.random() < 0.12 else ['cp', i + 1] for i in range(npos)]
         kwn = [n for n in c['pos'] + c['kwo'] + (['z'] if rng.random() < 0.1 else []) if rng.random() < 0.3]
